@@ -73,6 +73,12 @@ patterns non-empty, speed parameters ≥ 1, tempo parameters ≥ 20, initial spe
 0xff are never real patterns and an end marker in the order list excludes a restart position — with a
 restart position the model's `next_order` and the scan restart at different orders when an end marker
 lies below a secondary entry point; no core loader produces that combination.
+IT row delay (`SEx`, `Fx.rowdelay`: the row is entered `1 + x` times, each for `speed` ticks at the
+*running* speed) is in the model of both interpreters and in its tie to the C, and
+`C18_row_accounting_rowdelay` states the scan's accounting for it; but `Fx.WF` / `ModWF` exclude it: the
+simulation theorems do not cover modules that contain it (the player's row trace then has `1 + x` entries
+where the scan's has one, and `scan_cnt` is `1 + x`).  `C18_scan_eq_play_partial` / `C18_pattern_step`
+carry the hypothesis `p.rowdelay = 0` (no row delay pending) for the same reason.
 Tempos above 255 are allowed by `ModWF` but lie outside the property's vocabulary: there the model's
 `tick` is a floor (both interpreters use the same one, so the theorems hold over the model), and the
 model is tied to the C only for tempos 32..255.
@@ -106,6 +112,24 @@ example : let st : ScanSt := { speed := 6, bpm := 125, rowCount := 3, frameCount
   have := (C18_row_accounting (.tempo 150) st (by simp [Fx.WF])).1
   simpa [rowFrames, fxSpeed, fxBpm, Fx.delayOf] using this
 
+/-- **IT row delay (`SEx`) in the scan** (scan.c:539-544 against `next_row`'s `rowdelay` countdown): the
+clock advances by `1 + x` rows at the *running* speed and tempo — the values in force when the row is
+scanned, not the ones recorded in `xxo_info` when the order was entered.  (`Fx.WF` excludes `rowdelay`:
+the simulation theorems below do not cover it yet; the model and its tie to the C do.) -/
+theorem C18_row_accounting_rowdelay (x : Nat) (st : ScanSt) :
+    (scanStep (.rowdelay x) st).rowStart = st.rowStart + (1 + x % 16) * st.speed * tick st.bpm ∧
+    (scanStep (.rowdelay x) st).speed = st.speed ∧ (scanStep (.rowdelay x) st).bpm = st.bpm :=
+  scanStep_rowStart_rowdelay x st
+
+/-- after a speed change to 3 inside the order (entered at speed 6), `SE2` costs 3 · 3 ticks -/
+example : let st : ScanSt := { speed := 3, bpm := 125, rowCount := 2, frameCount := 12, cnt := [], ctl := [], info := [{ speed := 6, bpm := 125 }] }
+    (scanStep (.rowdelay 2) st).rowStart = st.rowStart + 9 * tick 125 := by
+  intro st
+  have h := (C18_row_accounting_rowdelay 2 st).1
+  have h2 : (1 + 2 % 16) * st.speed = 9 := by decide
+  rw [h2] at h
+  exact h
+
 /-- The player in one row (any non-jump effect): exactly `speed'·(1+delay)` frames, one row
 entry, Σ frame_time as accounted by the scan, then `next_row`. -/
 theorem C18_play_row (e : PlayEnv) (p : PlaySt) (fx : Fx) (hfx : e.fxAt p.ord p.row = fx)
@@ -136,6 +160,8 @@ theorem C18_scan_eq_play_partial (e : PlayEnv) (ord row : Nat) (fxs rest : List 
     -- player side: first frame of (ord,row)
     (ho : p.ord = ord) (hr : p.row = row) (hf : p.frame = 0) (hd : p.delay = 0) (hp : p.pbreak = false)
     (hl : p.loopCount = 0) (hs : 1 ≤ p.speed)
+    -- no IT row delay pending (`flow.rowdelay`, new with the `rowdelay` effect of the model)
+    (hrd : p.rowdelay = 0)
     -- agreement
     (hsp : p.speed = st.speed) (hbp : p.bpm = st.bpm) (ht : p.time = st.rowStart) :
     ∃ st' F p',
@@ -146,8 +172,8 @@ theorem C18_scan_eq_play_partial (e : PlayEnv) (ord row : Nat) (fxs rest : List 
       p'.ord = ord ∧ p'.row = row + fxs.length ∧ p'.frame = 0 ∧ p'.loopCount = 0 ∧
       p'.speed = st'.speed ∧ p'.bpm = st'.bpm ∧ p'.time = st'.rowStart ∧ p'.endPoint = p.endPoint := by
   obtain ⟨st', hs1, hd1⟩ := scanRows_nojump_app ord rest fxs row st hfx hfresh hbpm hlen hrl
-  obtain ⟨F, p', hrun, htr, htk, h1, h2, h3, _, _, h6, h7, h8, h9, h10⟩ :=
-    runN_rows e ord fxs rest row p hrows hrest hfx hend ho hr hf hd hp hl hs
+  obtain ⟨F, p', hrun, htr, htk, h1, h2, h3, _, _, h6, h7, h8, h9, h10, _⟩ :=
+    runN_rows e ord fxs rest row p hrows hrest hfx hend ho hr hf hd hp hl hs hrd
   refine ⟨st', F, p', hs1, hrun, ?_, ?_, h1, h2, h3, h6, ?_, ?_, ?_, h10⟩
   · rw [hd1.trace, htr]
   · rw [htk, hd1.rowStart, hsp, hbp]; omega
@@ -173,7 +199,7 @@ example := C18_scan_eq_play_partial exE 0 0 [.speed 3, .delay 2, .tempo 150] [Fx
   (by intro fx h; simp at h; rcases h with h | h | h <;> subst h <;> simp [Fx.isJump, Fx.WF])
   exFresh (by simp [exSt]) (by simp [exSt]) (by show 0 + 3 ≤ 4; omega)
   (by intro _ r _ h; simp at h; show r ≠ 3; omega)
-  rfl rfl rfl rfl rfl rfl (by simp [exP]) rfl rfl (by simp [exP, exSt, ScanSt.rowStart])
+  rfl rfl rfl rfl rfl rfl (by simp [exP]) rfl rfl rfl (by simp [exP, exSt, ScanSt.rowStart])
 
 /-- **The scan terminates**: the fuelled model of `scan_module`'s outer loop never runs out of
 `scanFuel m = (len+1)·514 + 1` iterations — each iteration either ends the scan, skips an order
@@ -254,7 +280,7 @@ theorem C18_pattern_step (e : PlayEnv) (ord : Nat) (pre : List Fx) (last : Fx) (
     (hrl : pre.length + 1 ≤ (st.cnt.getD ord []).length)
     (hend : ord = e.si.endOrd → e.si.endRow < pre.length + 1 → p.endPoint ≠ 0)
     (ho : p.ord = ord) (hr : p.row = 0) (hf : p.frame = 0) (hd : p.delay = 0) (hp : p.pbreak = false)
-    (hj : p.jump = none) (hl : p.loopCount = 0) (hs : 1 ≤ p.speed)
+    (hj : p.jump = none) (hl : p.loopCount = 0) (hs : 1 ≤ p.speed) (hrd : p.rowdelay = 0)
     (hsp : p.speed = st.speed) (hbp : p.bpm = st.bpm) (ht : p.time = st.rowStart) :
     ∃ st' F sP,
       scanRows ord (e.m.rowsOf (e.m.patOf ord)) 0 st = .done st' (ord2After last) ∧
@@ -262,9 +288,9 @@ theorem C18_pattern_step (e : PlayEnv) (ord : Nat) (pre : List Fx) (last : Fx) (
       st'.trace = (rowRecs F).reverse ++ st.trace ∧ ticks F = st'.rowStart - st.rowStart ∧
       sP.speed = st'.speed ∧ sP.bpm = st'.bpm ∧ sP.time = st'.rowStart ∧ sP.loopCount = 0 := by
   obtain ⟨st', h1, hd1⟩ := scan_pattern ord pre last post 0 st hpre hlw hlast (fun r _ => hfresh r) hb hlen (by omega)
-  obtain ⟨F, sP, hrun, hrec, htk, b1, b2, b3, b4, b5, b6, b7, b8⟩ :=
+  obtain ⟨F, sP, hrun, hrec, htk, b1, b2, b3, b4, b5, b6, b7, b8, _⟩ :=
     play_pattern e ord pre last post 0 p (by rw [hrows]; rfl) hpre hlw hlast
-      (fun h1 _ h3 => hend h1 (by omega)) ho hr hf hd hp hj hl hs
+      (fun h1 _ h3 => hend h1 (by omega)) ho hr hf hd hp hj hl hs hrd
   refine ⟨st', F, sP, by rw [hrows]; exact h1, by rw [← nordAfter_eq]; exact hrun, ?_, ?_, ?_, ?_, ?_, b4⟩
   · rw [hd1.recs, hrec, hsp, hbp, ht]
   · rw [htk, hd1.rowStart, hsp, hbp]; omega
@@ -278,7 +304,7 @@ example := C18_pattern_step exE 0 [.speed 3, .delay 2, .tempo 150] .none [] exSt
   (by intro fx h; simp at h; rcases h with h | h | h <;> subst h <;> simp [Fx.isJump, Fx.WF])
   (by simp [Fx.WF]) (Or.inr rfl) (fun r => exFresh r (Nat.zero_le _)) (by simp [exSt]) (by simp [exSt])
   (by show 3 + 1 ≤ 4; omega) (by intro _ _; show (1 : Int) ≠ 0; decide)
-  rfl rfl rfl rfl rfl rfl rfl (by simp [exP]) rfl rfl (by simp [exP, exSt, ScanSt.rowStart])
+  rfl rfl rfl rfl rfl rfl rfl (by simp [exP]) rfl rfl rfl (by simp [exP, exSt, ScanSt.rowStart])
 
 /-- **Cross-order simulation of one sequence** (`scan_module(ep, chain)` against `Play.run`). -/
 theorem C18_scan_eq_play_seq (m : LinMod) (ep chain : Nat) (ctl0 : List Nat) (info0 : List OrdInfo) (e : PlayEnv)
